@@ -110,4 +110,35 @@ theorem rloop_index_unwritable (run : St → Res) (re : Option (St → Res)) (ls
   unfold rloopQB cmpPath
   simp [hq, hn]
 
+/-- **Printed values and assignments' sources.** In the same situation `Ctx.get` of `pre[i]post` is `Ctx.get` of
+    `pre.<n>post` as it reads outside counter loops — value and error alike. -/
+theorem get_indexed_by_counter (c : Ctx) (pre post i : Bytes) (n : Int) (hq : c.chQB = true)
+    (h1 : ∀ d ∈ pre, (d == 91) = false) (h2 : ∀ d ∈ pre, (d == 93) = false) (h3 : ∀ d ∈ i, (d == 93) = false)
+    (hi : splitDots i = [i]) (hv : getVar c.vars i = some (.ins (.int n) .static)) :
+    getCore c.vars c.chQB (pre ++ 91 :: (i ++ 93 :: post)) = getCore c.vars false (pre ++ [46] ++ decInt n ++ post) := by
+  unfold getCore
+  simp only [hq, if_true, replaceQB_counter c.vars pre post i n h1 h2 h3 hi hv]
+  simp
+
+/-- **`len()` / `cap()` conditions.** The same for `Ctx.cmpLC`. -/
+theorem cmpLC_indexed_by_counter (c : Ctx) (pre post i : Bytes) (n : Int) (o : Op) (right : Bytes) (hq : c.chQB = true)
+    (h1 : ∀ d ∈ pre, (d == 91) = false) (h2 : ∀ d ∈ pre, (d == 93) = false) (h3 : ∀ d ∈ i, (d == 93) = false)
+    (hi : splitDots i = [i]) (hv : getVar c.vars i = some (.ins (.int n) .static)) :
+    cmpLCCore c.vars c.chQB (pre ++ 91 :: (i ++ 93 :: post)) o right = cmpLCCore c.vars false (pre ++ [46] ++ decInt n ++ post) o right := by
+  unfold cmpLCCore
+  simp only [hq, if_true, replaceQB_counter c.vars pre post i n h1 h2 h3 hi hv]
+  simp
+
+/-- A path without a square bracket is read the same inside and outside counter loops, by all four readers. -/
+theorem readers_plain (vars : Vars) (qb : Bool) (k : Bytes) (o : Op) (right : Bytes) (hb : indexOf 91 k = none) :
+    getCore vars qb k = getCore vars false k ∧ cmpPath vars qb k = some k ∧
+    cmpLCCore vars qb k o right = cmpLCCore vars false k o right := by
+  have hr : replaceQB vars k = some k := by unfold replaceQB; simp [hb]
+  refine ⟨?_, C15.cmpPath_plain vars qb k hb, ?_⟩
+  · unfold getCore; cases qb <;> simp [hr]
+  · unfold cmpLCCore; cases qb <;> simp [hr]
+
+/-! Non-vacuity: printing `lst[i]` with `i = 1` prints `b`; `len(lst[i])`-style comparison goes through the same path. -/
+example : (cx.get (lit "lst[i]")).1.text = some (lit "b") := by decide
+
 end DyntplV.C02Q
